@@ -49,6 +49,20 @@ func main() {
 			fmt.Fprintln(os.Stderr, err)
 			os.Exit(2)
 		}
+		if rf.Property == "C18" {
+			// run-to-run divergence caused by Go map iteration order cannot be seeded: re-run the
+			// recorded history and report the divergence rate (everything else replays exactly)
+			hits := 0
+			const K = 20
+			for i := 0; i < K; i++ {
+				vi, ri, _ := core.DoReplay(rf)
+				if vi != nil {
+					hits++
+					v, r = vi, ri
+				}
+			}
+			fmt.Printf("C18 replay: the recorded history diverged in %d of %d executions\n", hits, K)
+		}
 		if os.Getenv("OPSIM_CHILD") == "" {
 			for _, l := range r.Log {
 				fmt.Println("  ", l)
